@@ -297,9 +297,41 @@ def errorY (kind : String) (f ipred : Expr) (eps1 eps2 : Sym) : Option Expr :=
 
 def guardExpr (f : Expr) : Expr := inst [("f", f)] Gen.errGuard
 
-/-- `set_power_on_ruv` for a model whose `Y` is a sum of `f` and terms `c·eps`: `eps ↦ ipred**theta * eps`
-    after the factor `ipred` of a proportional term was divided out. (hand-modelled) -/
-def powerTerm (ipred : Expr) (theta eps : Sym) : Expr := eMul (.f2 "pow" ipred (.sym theta)) (.sym eps)
+/-- `set_power_on_ruv`: what an epsilon (after the factor `ipred` of a proportional term was divided out) is
+    replaced by: `ipred**theta * eps` (template read from the source; `adj` = the zero-protected IPREDADJ variant). -/
+def powerTerm (adj : Bool) (ipred : Expr) (theta eps : Sym) : Expr :=
+  if adj then inst [("ipredadj", ipred), ("theta.name", .sym theta), ("e", .sym eps)] Gen.powerAdj
+  else inst [("ipred", ipred), ("theta.name", .sym theta), ("e", .sym eps)] Gen.powerPlain
+
+/-- `set_iiv_on_ruv`: each selected epsilon is replaced by `eps * exp(eta)` (template from the source),
+    one `subs` per epsilon in the order of the list. -/
+def iivFactor (eps eta : Sym) : Expr :=
+  inst [("e.names[0]", .sym eps), ("eta_dict[e].names[0]", .sym eta)] Gen.iivOnRuv
+
+def iivOnRuv (y : Expr) : List (Sym × Sym) → Expr
+  | [] => y
+  | (e, η) :: ps => iivOnRuv (Expr.subst1 e (iivFactor e η) y) ps
+
+/-- the environment in which every selected epsilon is multiplied by `exp` of its eta -/
+def scaleEnv (F : Funs) (ρ : Env Rat) (ps : List (Sym × Sym)) : Env Rat :=
+  fun s => match ps.lookup s with
+    | some η => ρ s * F.exp (ρ η)
+    | none => ρ s
+
+/-- the (epsilon, eta) list is usable: no epsilon twice, no eta that is itself a selected epsilon -/
+def PairsOk : List (Sym × Sym) → Prop
+  | [] => True
+  | (e, η) :: ps => ps.lookup e = none ∧ ps.lookup η = none ∧ PairsOk ps
+
+/-- `set_time_varying_error_model`: `Piecewise((y[eps ↦ eps*theta …], idv < cutoff), (y, True))` -/
+def tvFactor (eps theta : Sym) : Expr := inst [("e", .sym eps), ("theta", .sym theta)] Gen.timeVarying
+
+def tvScaled (theta : Sym) (y : Expr) : List Sym → Expr
+  | [] => y
+  | e :: es => tvScaled theta (Expr.subst1 e (tvFactor e theta) y) es
+
+def timeVarying (y : Expr) (eps : List Sym) (theta : Sym) (cond : Expr) : Expr :=
+  .f3 "ite" cond (tvScaled theta y eps) y
 
 def dtbsIpred (f : Expr) (lam : Sym) : Expr := inst [("f", f), ("lam", .sym lam)] Gen.dtbsIpred
 def dtbsW (f : Expr) (zeta : Sym) : Expr := inst [("f", f), ("zeta", .sym zeta)] Gen.dtbsW
